@@ -315,9 +315,21 @@ func (u *UnitsDefinition) handleParseMultiplier(
 				Message: fmt.Sprintf("Failed to parse number as int: %s", result),
 			}
 		}
-		floatNumber += float64(i * multiplier)
+		product := i * multiplier
+		if i != 0 && (product/i != multiplier || (i == -1 && multiplier == math.MinInt64)) {
+			return intNumber, floatNumber, isFloat, BadArgumentError{
+				Message: fmt.Sprintf("Number out of range: %s", result),
+			}
+		}
+		floatNumber += float64(product)
 		if !isFloat {
-			intNumber += i * multiplier
+			sum := intNumber + product
+			if (product > 0 && sum < intNumber) || (product < 0 && sum > intNumber) {
+				return intNumber, floatNumber, isFloat, BadArgumentError{
+					Message: fmt.Sprintf("Number out of range: %s", result),
+				}
+			}
+			intNumber = sum
 		}
 	}
 	return intNumber, floatNumber, isFloat, nil
